@@ -28,6 +28,8 @@ type modCase struct {
 	kw      string
 	// LLVM's parser accepted the module, its verifier did not
 	unverified bool
+	// LLVM 14 and the library's parser both reject what the library printed (diagnostic of the latter)
+	bothReject string
 }
 
 // roundTrip: text1 (accepted by LLVM, canon1) -> parser -> printer -> LLVM.
@@ -46,12 +48,21 @@ func roundTrip(c *modCase, canon1 string, extract func(m *ir.Module) (uint64, er
 	}
 	if extract != nil {
 		v2, err := extract(m2)
+		if ot, isOther := err.(otherType); isOther && v2 == c.v {
+			// "the parser maps [the keyword] back to the same value": the value that comes back is of
+			// another type (the meaning is kept: it prints the same keyword) -- a finding of its own class
+			c.fail = &mbt.Failure{Signature: sig("keyword parses back to a value of another type"), What: fmt.Sprintf("%s %s (%d) is printed and parsed back as a %s, not as the enumerated value (it prints the same keyword again)\n%s", c.siteNm, c.name, c.v, ot.typ, c.input), Case: cs}
+			err = nil
+		}
 		if err != nil {
 			c.fail = &mbt.Failure{Signature: sig("keyword lost by the parser"), What: fmt.Sprintf("%s %s: %v\n%s", c.siteNm, c.name, err, c.input), Case: cs}
 			return
 		}
 		if v2 != c.v {
 			c.fail = &mbt.Failure{Signature: sig("keyword parses back to a different value"), What: fmt.Sprintf("%s %s (%d): the parsed module holds the value %d\n%s", c.siteNm, c.name, c.v, v2, c.input), Case: cs}
+			return
+		}
+		if c.fail != nil {
 			return
 		}
 	}
@@ -70,6 +81,32 @@ func roundTrip(c *modCase, canon1 string, extract func(m *ir.Module) (uint64, er
 	}
 	if canon1 != canon2 {
 		c.fail = &mbt.Failure{Signature: sig("LLVM reads the printed module differently"), What: fmt.Sprintf("%s %s:\ninput:\n%s\noutput:\n%s\nllvm-dis of input:\n%s\nllvm-dis of output:\n%s", c.siteNm, c.name, c.input, text2, canon1, canon2), Case: cs}
+	}
+}
+
+// libraryRoundTrip: text (printed by the library, rejected by LLVM 14) -> parser -> same value.
+func libraryRoundTrip(c *modCase, text string, sh *shape) {
+	sig := func(class string) string { return "C18|" + c.siteNm + "|" + class + "|" + c.name }
+	cs := replayCase{Layer: "module", Fam: c.fam, V: c.v, Site: c.siteNm, Text: text}
+	var m2 *ir.Module
+	var err error
+	if msg, p := mbt.Guard(func() { m2, err = asm.ParseString("kw.ll", text) }); p {
+		c.fail = &mbt.Failure{Signature: sig("parser panics on the library's own output (LLVM 14 rejects it too)"), What: fmt.Sprintf("%s %s: %s\n%s", c.siteNm, c.name, mbt.Truncate(msg, 200), text), Case: cs}
+		return
+	}
+	if err != nil {
+		// the library's parser rejects it as LLVM does: the caller decides (all shapes)
+		c.bothReject = mbt.Truncate(err.Error(), 160)
+		return
+	}
+	c.bothReject = ""
+	v2, err := sh.Extract(m2)
+	if err != nil {
+		c.fail = &mbt.Failure{Signature: sig("keyword lost by the parser on the library's own output (LLVM 14 rejects it too)"), What: fmt.Sprintf("%s %s: %v; llvm-as: %s\n%s", c.siteNm, c.name, err, c.discard, text), Case: cs}
+		return
+	}
+	if v2 != c.v {
+		c.fail = &mbt.Failure{Signature: sig("printed keyword parses back to a different value (LLVM 14 rejects it too)"), What: fmt.Sprintf("%s %s (%d): the library reads its own output back as the value %d; llvm-as: %s\n%s", c.siteNm, c.name, c.v, v2, c.discard, text), Case: cs}
 	}
 }
 
@@ -177,7 +214,10 @@ func moduleLayer(rep *mbt.Report, tier string, found, tfound map[string]*enumTyp
 			}
 			return
 		}
-		for _, sh := range c.site.Shapes {
+		var rejected []int // shapes LLVM 14 rejects
+		var rejectedText []string
+		for si := range c.site.Shapes {
+			sh := c.site.Shapes[si]
 			var text string
 			if msg, p := mbt.Guard(func() { text = sh.Build(c.v).String() }); p {
 				c.fail = &mbt.Failure{Signature: "C18|" + c.siteNm + "|printer panics|" + c.name, What: fmt.Sprintf("%s %s (%s): %s", c.siteNm, c.name, sh.Name, mbt.Truncate(msg, 200)),
@@ -192,12 +232,32 @@ func moduleLayer(rep *mbt.Report, tier string, found, tfound map[string]*enumTyp
 				if c.discard == "" {
 					c.discard = firstLine(diag)
 				}
+				rejected = append(rejected, si)
+				rejectedText = append(rejectedText, text)
 				continue
 			}
 			c.discard = ""
 			c.input, c.shape = text, sh.Name
 			roundTrip(c, canon1, sh.Extract, c.name)
 			return
+		}
+		// LLVM 14 rejects the value in every shape (a keyword of a later LLVM, or one that is not
+		// allowed in this position): LLVM cannot arbitrate, but the property's own law still applies to
+		// what the library printed -- if its parser accepts the text it must read the same value back.
+		// (Otherwise a printer that writes a wrong keyword LLVM happens to reject would go unnoticed.)
+		// If the library's parser rejects every shape as LLVM does, the defined value has no spelling in this
+		// position at all: a violation unless it is the family's zero value named ...None (the marker of an
+		// absent keyword, e.g. ordering `none` on a non-atomic access), which is never printed in valid IR.
+		for k, si := range rejected {
+			libraryRoundTrip(c, rejectedText[k], &c.site.Shapes[si])
+			if c.fail != nil || c.bothReject == "" {
+				break
+			}
+		}
+		if c.fail == nil && c.bothReject != "" && !(c.v == 0 && strings.HasSuffix(c.name, "None")) {
+			c.fail = &mbt.Failure{Signature: "C18|" + c.siteNm + "|printed keyword is rejected by the library's parser and by LLVM 14 in every shape|" + c.name,
+				What: fmt.Sprintf("%s %s (%d): the library prints\n%sllvm-as: %s; asm.ParseString: %s", c.siteNm, c.name, c.v, rejectedText[0], c.discard, c.bothReject),
+				Case: replayCase{Layer: "module", Fam: c.fam, V: c.v, Site: c.siteNm, Text: rejectedText[0]}}
 		}
 	})
 	accepted, discarded := map[string]int{}, map[string][]string{}
